@@ -230,6 +230,21 @@ def recovery_rules(chk, prog, r):
                    "the restarted worker is stored under another index (or not at all): a later panic of it joins/replaces the wrong thread", path=wp)
 
 
+def isolation_rules(chk, prog):
+    """The worker / PanicMarker / recovery rules on their own (also used by C01 and C20: a panicking handler costs only its own connection;
+    tasks queued before the shutdown message still run)."""
+    sp = spawned_closures(prog)
+    worker = [(sb, blk, c) for sb, blk, c in sp if c.calls_to(CALL_ONCE)]
+    recovery = [(sb, blk, c) for sb, blk, c in sp if c.calls_to(r"^humphrey::thread::pool::Thread::new$")]
+    chk.floor("worker closure", len(worker), 1)
+    chk.floor("recovery closure", len(recovery), 1)
+    for sb, blk, c in worker:
+        worker_rules(chk, prog, c, sb)
+    marker_drop(chk, prog)
+    for sb, blk, c in recovery:
+        recovery_rules(chk, prog, c)
+
+
 def run(chk):
     prog = chk.use(core.load("A", fresh=(chk.tier == "thorough")))
     chk.explanation = (
